@@ -45,9 +45,37 @@ def upstream_result_locals(body, crate=None):
     return out
 
 
-def item_seeds(body, crate=None):
+STATE_TAKE_DEFS = ("core::option::{impl#0}::take", "core::mem::take", "core::mem::replace", "core::option::{impl#0}::replace")
+
+
+def state_take_locals(body):
+    """locals receiving a value taken out of the adaptor's own state: Option::take / mem::take / mem::replace whose receiver points into `self`"""
+    import proto
+    if body.kind == "Closure":
+        return {}
+    org = proto.Origins(body)
+    out = {}
+    for bb, t in body.calls():
+        f = t.get("f")
+        if not f or not isinstance(t.get("dst"), int) or not t["a"]:
+            continue
+        if f["def"] not in STATE_TAKE_DEFS and not (f["name"] in ("take", "replace") and f["def"].startswith("core::")):
+            continue
+        p = op_place(t["a"][0])
+        if p is None:
+            continue
+        root, path = org.origin_place(p)
+        if root == 1 and not trivially_droppable(body.locals[t["dst"]]):
+            out[t["dst"]] = (bb, "state:" + ".".join(str(x) for x in path))
+    return out
+
+
+def item_seeds(body, crate=None, state_takes=False):
     """(bb, stmt_index, local) where an item is bound out of an upstream result"""
     ups = upstream_result_locals(body, crate)
+    if state_takes:
+        for l, v in state_take_locals(body).items():
+            ups.setdefault(l, v)
     seeds = []
     # propagate "is (part of) an upstream result" through whole-value moves, so `match (a, b)` tuples are covered
     res_like = dict(ups)
@@ -82,6 +110,15 @@ def item_seeds(body, crate=None):
                 if isinstance(p, int) and p in res_like:
                     res_like[t["dst"]] = res_like[p]
                     changed = True
+    unwrapped = set()
+    if state_takes:
+        # `let (a, b) = self.buf.take().unwrap();` : the unwrap result is the payload itself
+        for bb, t in body.calls():
+            f = t.get("f")
+            if f and f["name"] in ("unwrap", "expect", "unwrap_unchecked") and isinstance(t.get("dst"), int) and t["a"]:
+                p = op_place(t["a"][0])
+                if isinstance(p, int) and p in res_like and str(res_like[p][1]).startswith("state:"):
+                    unwrapped.add(t["dst"])
     for bb, i, lhs, rv in body.assignments():
         if body.is_cleanup(bb) or not isinstance(lhs, int):
             continue
@@ -94,12 +131,34 @@ def item_seeds(body, crate=None):
         if pl_local(p) in res_like and any(pr.startswith("@") for pr in projs) and projs[-1].startswith("."):
             if not trivially_droppable(body.locals[lhs]):
                 seeds.append((bb, i, lhs))
+        elif pl_local(p) in unwrapped and projs and all(pr.startswith(".") for pr in projs):
+            if not trivially_droppable(body.locals[lhs]):
+                seeds.append((bb, i, lhs))
     return seeds, res_like
 
 
-def analyse(body, params=(), exempt_locals=(), crate=None):
-    """returns (seed_count, findings) ; finding = (kind, local, bb)"""
-    seeds, res_like = item_seeds(body, crate)
+def pending_blocks(body):
+    """non-cleanup blocks that set the return place to a Pending value"""
+    out = []
+    for bb, t in body.calls():
+        f = t.get("f")
+        if f and f["name"] == "pending" and t.get("dst") == 0:
+            out.append(bb)
+    for bb, i, lhs, rv in body.assignments():
+        if lhs == 0 and rv["k"] == "agg" and (rv.get("adt") or {}).get("variant") == "Pending" and not body.is_cleanup(bb):
+            out.append(bb)
+    return out
+
+
+def analyse(body, params=(), exempt_locals=(), crate=None, state_takes=False, only_on_pending=False):
+    """returns (seed_count, findings) ; finding = (kind, local, bb).
+    only_on_pending: report a drop only if it lies on a path after the return value was set to Pending"""
+    seeds, res_like = item_seeds(body, crate, state_takes=state_takes)
+    pend_reach = None
+    if only_on_pending:
+        pend_reach = set()
+        for pb in pending_blocks(body):
+            pend_reach |= body.reachable(pb)
     seed_at = {}
     for bb, i, l in seeds:
         seed_at.setdefault(bb, []).append((i, l))
@@ -142,7 +201,7 @@ def analyse(body, params=(), exempt_locals=(), crate=None):
             p = t["p"]
             l = pl_local(p)
             if l in owned and isinstance(p, int):
-                if report and (l, bb) not in seen and l not in exempt_locals:
+                if report and (l, bb) not in seen and l not in exempt_locals and (pend_reach is None or bb in pend_reach):
                     seen.add((l, bb))
                     findings.append(("dropped", l, bb))
                 owned.discard(l)
